@@ -1,8 +1,179 @@
-/- Driver handlers for area `fedreq` (stub: replace `handle`). -/
+/- Driver handlers for area `fedreq` (C13: federation request authentication). -/
 import VDriver.Util
+import VModel.FedReq
 namespace V.Driver.FedreqOps
-open V V.Driver
+open V V.Driver V.FedReq V.Json
 
-def handle (_op : String) (_args : Array String) : Option String := none
+def sigPlaceholder : Bytes := strBytes "$SIG"
+
+/-- `X<hex>` with a one-letter tag -/
+def tagged (tag : String) (s : String) : Option Bytes :=
+  if s.startsWith tag then unhex (s.drop tag.length).toString else none
+
+def parseHexList (s : String) : Option (List Bytes) :=
+  if s == "." then some [] else (s.splitOn ",").mapM unhex
+
+def parseTable (s : String) : Option (List KeyEntry × Bool) :=
+  let (dbErr, body) := if s.startsWith "!" then (true, (s.drop 1).toString) else (false, s)
+  if body == "." then some ([], dbErr) else
+  ((body.splitOn ",").mapM (fun (e : String) => match e.splitOn "|" with
+    | [sv, kid, idx, vu, ex] =>
+      match unhex sv, unhex kid, idx.toNat?, vu.toNat?, ex.toNat? with
+      | some sv, some kid, some idx, some vu, some ex => some (⟨sv, kid, idx, vu, ex⟩ : KeyEntry)
+      | _, _, _, _, _ => none
+    | _ => none)).map (fun t => (t, dbErr))
+
+def showSendErr : SendErr → String
+  | .setContent => "err:setcontent"
+  | .sign => "err:sign"
+  | .build => "err:build"
+  | .unmodelled => "skip:non-utf8-field"
+
+def showRefusal : Refusal → String
+  | .badRequest => "err:400"
+  | .unauthorized => "err:401"
+  | .internal => "err:500"
+  | .unmodelled => "skip:non-utf8-field"
+
+/-- canonical content as the harness prints it -/
+def showContent (c : Option Bytes) : String :=
+  match c with
+  | none => "N"
+  | some raw =>
+    if raw.isEmpty then "N" else
+    match canonical raw with
+    | .ok b => "C" ++ hex b
+    | .error _ => "R" ++ hex raw
+
+def showOk (method uri origin dest : Bytes) (content : Option Bytes) : String :=
+  "ok:" ++ hex method ++ "," ++ hex uri ++ "," ++ hex origin ++ "," ++ hex dest ++ "," ++ showContent content
+
+/-- inside C01's domain: no duplicate keys, well-formed Unicode -/
+def inJsonDomain (raw : Bytes) : Bool :=
+  if !utf8Valid raw then true else      -- refused before any JSON reading (readHTTPRequest)
+  match parse raw with
+  | some p => p.noDupKeys && p.wellFormed
+  | none => true
+
+def wallclock : Nat := 2000000000000
+
+def canonOf (c : Option Bytes) : Option (Option Bytes) :=
+  match contentValue c with
+  | none => none
+  | some none => some none
+  | some (some v) => some (some (encodeCanon v))
+
+/-- ops:
+    verify  (see harness/area_fedreq.go for the 20 arguments)
+       -> ok:<method>,<uri>,<origin>,<destination>,<content> | err:setcontent | err:sign | err:build | err:400 | err:401 | err:500
+    parseauth <hx header> -> <scheme>,<origin>,<destination>,<key>,<sig> (hex each)
+-/
+def handle (op : String) (args : Array String) : Option String :=
+  match op, args.toList with
+  | "parseauth", [h] =>
+    match unhex h with
+    | some hdr =>
+      let a := parseAuthorization hdr
+      some ("auth:" ++ hex a.scheme ++ "," ++ hex a.origin ++ "," ++ hex a.destination ++ "," ++ hex a.key ++ "," ++ hex a.sig)
+    | none => some "bad-op"
+  | "verify", [m, o, d, u, c, sn, kid, kidx, up, txm, _txuText, txu, _txct, txmt, txb, txa, now, rd, loc, tbl] =>
+    let content : Option (Option Bytes) := if c == "N" then some none else (tagged "J" c).map some
+    let urlParse : Option (Option Bytes) := if up == "E" then some none else (tagged "U" up).map some
+    let localNames : Option (Option (List Bytes)) := if loc == "nil" then some none else (parseHexList loc).map some
+    match unhex m, unhex o, unhex d, unhex u, content, unhex sn, unhex kid, kidx.toNat?, urlParse,
+          now.toNat?, unhex rd, localNames, parseTable tbl with
+    | some m, some o, some d, some u, some content, some sn, some kid, some kidx, some urlParse,
+      some now, some rd, some localNames, some (table, dbErr) =>
+      if !(content.map inJsonDomain).getD true then some "skip:content-outside-json-domain" else
+      -- sender side
+      let f0 := newRequest m o d u
+      let f1 : Except SendErr Fields := match content with
+        | none => .ok f0
+        | some raw => setContent f0 raw
+      let sent : Except SendErr (Fields × JVal × HttpReq) := do
+        let f1 ← f1
+        -- record the object that is signed
+        let fo := { f1 with origin := sn }
+        let obj := match contentValue fo.content with
+          | some cv => signingObject cv fo.destination fo.method fo.origin fo.uri
+          | none => .null
+        let f2 ← sign f1 sn kid (fun _ => sigPlaceholder)
+        let req ← httpRequest f2 urlParse
+        pure (f2, obj, req)
+      match sent with
+      | .error e => let s := showSendErr e; some (s ++ "\t" ++ s)
+      | .ok (signed, signedObj, produced) =>
+        -- the transmitted request: the produced one with the tampered parts replaced
+        let txMethod := if txm == "=" then some produced.method else tagged "M" txm
+        let txURI := if txu == "=" then some produced.requestURI else tagged "U" txu
+        let txMedia : Option (Option Bytes) :=
+          if txmt == "=" then some produced.mediaType else if txmt == "E" then some none else (tagged "T" txmt).map some
+        let txBody := if txb == "=" then some produced.body else tagged "B" txb
+        let txAuth := if txa == "=" then some produced.authorization else parseHexList txa
+        match txMethod, txURI, txMedia, txBody, txAuth with
+        | some txMethod, some txURI, some txMedia, some txBody, some txAuth =>
+          if !inJsonDomain txBody then some "skip:body-outside-json-domain" else
+          let req : HttpReq := ⟨txMethod, txURI, txBody, txMedia, txAuth⟩
+          let signedPayload := encodeCanon signedObj
+          let sigOK (pk : Nat) (obj : JVal) (sig : Bytes) : Bool :=
+            sig == sigPlaceholder && pk == kidx && encodeCanon obj == signedPayload
+          let isLocal := localNames.map (fun names => fun (n : Bytes) => names.contains n)
+          let res := verifyHTTPRequest req now rd isLocal (keyRingVerifier table dbErr wallclock sigOK)
+          let mOut := match res with
+            | .ok r => showOk r.method r.uri r.origin r.destination r.content
+            | .error e => showRefusal e
+          -- specification stream -----------------------------------------------------------------
+          -- what was signed
+          let sMethod := signed.method
+          let sURI := signed.uri
+          let sOrigin := signed.origin
+          let sDest := signed.destination
+          let sContent := signed.content
+          -- what the transmitted request claims (X-Matrix headers read with the model's parser)
+          let xs := (txAuth.map parseAuthorization).filter (fun a => a.scheme == xMatrix)
+          let noXMatrix := xs.isEmpty
+          let malformed := xs.any (fun a => a.origin.isEmpty || a.key.isEmpty || a.sig.isEmpty)
+          let origins := xs.map (·.origin)
+          let claimedOrigin := origins.getLast?.getD []
+          let conflictingOrigins := origins.any (fun x => x != claimedOrigin)
+          let hdrDest := (xs.getLast?.map (·.destination)).getD []
+          let claimedDest := if hdrDest.isEmpty then rd else hdrDest
+          let owned := if hdrDest.isEmpty then true else match localNames with
+            | some names => names.contains hdrDest
+            | none => rd == hdrDest
+          let bodyPresent := !txBody.isEmpty
+          let badBody := bodyPresent && (txMedia != some applicationJSON || !utf8Valid txBody)
+          let contentDiffers :=
+            match canonOf sContent, canonOf (if bodyPresent then some txBody else none) with
+            | some a, some b => a != b
+            | _, _ => true
+          let keyOK := !dbErr && xs.any (fun a => a.sig == sigPlaceholder &&
+            table.any (fun k => k.server == claimedOrigin && k.keyID == a.key && k.pk == kidx && wasValidAt wallclock k now))
+          let mustRefuse := txMethod != sMethod || txURI != sURI || claimedOrigin != sOrigin || conflictingOrigins ||
+            claimedDest != sDest || contentDiffers || !owned || noXMatrix || malformed ||
+            !validServerName claimedOrigin || badBody || !keyOK
+          let pristine := txm == "=" && txu == "=" && txmt == "=" && txb == "=" && txa == "="
+          let signedOut := showOk sMethod sURI sOrigin sDest sContent
+          -- key IDs range over the grammar ed25519:[A-Za-z0-9_]+ (the only algorithm the key ring supports)
+          let kidSuffix := kid.drop ed25519Prefix.length
+          let kidInGrammar := ed25519Prefix.isPrefixOf kid && !kidSuffix.isEmpty &&
+            kidSuffix.all (fun c => (0x30 ≤ c && c ≤ 0x39) || (0x41 ≤ c && c ≤ 0x5A) || (0x61 ≤ c && c ≤ 0x7A) || c == 0x5F)
+          -- completeness: an untouched request must be accepted when the receiver owns the named destination and
+          -- holds the signing key as valid at the time of receipt (decided from what was signed, not from the header)
+          let sOwned := !sDest.isEmpty && (match localNames with
+            | some names => names.contains sDest
+            | none => rd == sDest)
+          let sKeyValid := !dbErr && table.any (fun k => k.server == sOrigin && k.keyID == kid && k.pk == kidx && wasValidAt wallclock k now)
+          let acceptDemanded := pristine && sOwned && validServerName sOrigin && validServerName sDest && sKeyValid
+          let sOut :=
+            if m.isEmpty then "unspecified:empty-method"
+            else if !kidInGrammar then "unspecified:key-id-outside-grammar"
+            else if acceptDemanded then signedOut
+            else if mustRefuse then (match res with | .error e => showRefusal e | .ok _ => "err:must-refuse")
+            else (match res with | .ok _ => signedOut | .error e => showRefusal e)
+          some (mOut ++ "\t" ++ sOut)
+        | _, _, _, _, _ => some "bad-op"
+    | _, _, _, _, _, _, _, _, _, _, _, _, _ => some "bad-op"
+  | _, _ => none
 
 end V.Driver.FedreqOps
